@@ -6,7 +6,7 @@ from harness.core import cbool, clist, copt, cq, cz, czlist
 ID = "C07"
 MODEL_TARGETS = ["C07/Cases.vo"]
 PROOF_TARGETS = ["C01/Gen.vo", "C01/Bridge.vo", "C01/Proofs.vo", "C07/Site.vo", "C07/Bridge.vo",
-                 "C07/Proofs.vo", "C07/FitParams.vo"]
+                 "C07/Proofs.vo", "C07/FitParams.vo", "C07/PriorState.vo"]
 OBLIGATION_FILES = ["C07/Bridge.v"]
 PROPS_FILE = "C07/Props.v"
 SHARD = 60
@@ -22,7 +22,10 @@ RULE = ("random evaluate() runs: series of small positive integers (n <= 26, ind
         "windows, the step, the exogenous rows and the `boost` keyword of its last fit; every call is "
         "logged with its keyword arguments) or the real NaiveForecaster "
         "(last / mean / mean with window_length); fit_params None / {} / {'boost': k} (k in -4..6, 45% "
-        "of the runs with the double). non-trivial = accepted run with >= 2 folds; "
+        "of the runs with the double); the forecaster OBJECT handed to evaluate() is fresh (55%), "
+        "already fitted on the full series, fitted on another series, or was used by an earlier "
+        "evaluate() call on another series (either strategy) - the reference is always the honest "
+        "run of a fresh object. non-trivial = accepted run with >= 2 folds; "
         "distinct = distinct canonical JSON case")
 TRUSTED = [
     "translator/evalsite_c07.py (Python ast -> Gallina fold step of evaluate() and position "
@@ -205,6 +208,48 @@ def make_data(case):
     return y, X
 
 
+PRIORS = {"fresh": "a fresh object",
+          "full": "an object already fitted on the full series",
+          "other": "an object already fitted on another series",
+          "evaluated": "an object used by an earlier evaluate() call on another series"}
+
+
+def make_prior_data(case):
+    import numpy as np
+    import pandas as pd
+    vals = case["prior_y"]
+    idx = pd.RangeIndex(case.get("prior_off", 0), case.get("prior_off", 0) + len(vals))
+    y2 = pd.Series(np.asarray(vals, dtype=float), index=idx)
+    X2 = None
+    if case.get("X") is not None:
+        X2 = pd.DataFrame({"a": np.asarray(case["prior_X"], dtype=float)}, index=idx)
+    return y2, X2
+
+
+def apply_prior(f, case, y, X):
+    """Bring the forecaster OBJECT into the state it has when evaluate() is called.  Whatever
+    happens here is the caller's business: an exception leaves the object as it is."""
+    prior = case.get("prior", "fresh")
+    if prior == "fresh":
+        return "fresh"
+    from sktime.forecasting.model_evaluation import evaluate
+    try:
+        if prior == "full":
+            f.fit(y.copy(), None if X is None else X.copy(), fh=[1])
+        elif prior == "other":
+            y2, X2 = make_prior_data(case)
+            f.fit(y2, X2, fh=[1, 2])
+        elif prior == "evaluated":
+            y2, X2 = make_prior_data(case)
+            evaluate(f, make_cv(case["splitter"]), y2, X=X2, strategy=case["prior_strategy"],
+                     scoring=make_metric("mae"))
+        else:
+            raise AssertionError(prior)
+    except (ValueError, TypeError) as e:
+        return "%s (raised %s)" % (prior, type(e).__name__)
+    return "%s, is_fitted=%s" % (prior, bool(getattr(f, "is_fitted", False)))
+
+
 def _ser(s):
     from harness.core import float_ratio
     return [[int(t), float_ratio(v)] for t, v in zip(s.index, s.to_numpy())]
@@ -230,6 +275,7 @@ def run_impl(case):
     try:
         cv = make_cv(case["splitter"])
         f = make_forecaster(case["fc"])
+        prior_note = apply_prior(f, case, y, X)
         del LOG[:]
         kw = {}
         if "fit_params" in case:
@@ -245,6 +291,7 @@ def run_impl(case):
     out["rows"] = dump_table(res, col, case["return_data"])
     out["len_dtype_int"] = str(res["len_train_window"].dtype).startswith("int") if len(res) else True
     out["input_unchanged"] = bool(y.equals(y0))
+    out["prior"] = prior_note
     if case["fc"]["type"] == "double":
         out["trace"] = [{k: v for k, v in c.items() if k != "who"} for c in LOG]
     else:
@@ -450,6 +497,15 @@ def _fmt(ps):
 
 
 def oracle(case, out):
+    msg = _oracle(case, out)
+    if msg is not None and case.get("prior", "fresh") != "fresh":
+        # the honest reference never depends on it; say which object evaluate() was given
+        msg += " [evaluate() was given %s; the honest run starts from a fresh object's fit on " \
+               "the first training window]" % PRIORS[case["prior"]]
+    return msg
+
+
+def _oracle(case, out):
     ref = ref_eval(case)
     if "err" in out:
         return None if ref is None else "rejected-valid-evaluation: %s" % out["err"]
@@ -594,10 +650,28 @@ def gen_cases(rng, tier):
         # an integer index with gaps (time labels off, off+stride, ...): test time points are not
         # cutoff + steps; 30% of the runs
         c["stride"] = rng.choice([1, 1, 1, 1, 1, 1, 1, 2, 2, 3])
+        # the state of the forecaster OBJECT handed to evaluate(): fresh, already fitted on the
+        # full series, fitted on another series, used by an earlier evaluate() on another series.
+        # evaluate() must report the honest per-fold run whatever the object went through before.
+        add_prior(c, rng, rng.choice(["fresh"] * 11 + ["full"] * 4 + ["other"] * 2
+                                     + ["evaluated"] * 3))
         cases.append(c)
     if tier == "thorough":
         cases += exhaustive_cases()
     return cases
+
+
+def add_prior(c, rng, prior):
+    c["prior"] = prior
+    if prior in ("other", "evaluated"):
+        n = len(c["y"])
+        c["prior_y"] = [rng.randint(11, 40) for _ in range(n)]
+        c["prior_off"] = rng.choice([0, 5, 40])
+        if c.get("X") is not None:
+            c["prior_X"] = [rng.randint(-3, 6) for _ in range(n)]
+    if prior == "evaluated":
+        c["prior_strategy"] = rng.choice(["refit", "update"])
+    return c
 
 
 def exhaustive_cases():
@@ -617,18 +691,34 @@ def exhaustive_cases():
                                 "sww": True}, "off": 0, "y": y, "X": None, "strategy": strat,
                                 "metric": "asym", "fc": {"type": "naive", "strategy": "last",
                                                          "wl": None}, "return_data": False})
+                            if strat == "update":
+                                # ... and once more on an object already fitted on the full series
+                                out.append(dict(out[-1], prior="full"))
     return out
 
 
 def extra_coverage(cases, results, tier):
     return {"exhaustive": False,
             "exhaustive_scope": ("n in 2..8, window 1..3, step 1..3, fh subset of {1,2,3}, sliding "
-                                 "and expanding, both strategies, NaiveForecaster(last), asymmetric "
-                                 "scorer: %d cases, all enumerated" % len(exhaustive_cases()))
+                                 "and expanding, both strategies (update: on a fresh object and on "
+                                 "one already fitted on the full series), NaiveForecaster(last), "
+                                 "asymmetric scorer: %d cases, all enumerated" % len(exhaustive_cases()))
             if tier == "thorough" else "thorough only"}
 
 
 def shrink(case):
+    for d in _shrink(case):
+        # keep the generator's invariant: NaiveForecaster's window_length fits every training window
+        # (a longer one is rejected by the forecaster itself, also in an honest run)
+        wl = d["fc"].get("wl") if d["fc"]["type"] == "naive" else None
+        if wl is not None:
+            spl = ref_splits(d["splitter"], len(d["y"]))
+            if spl and min(len(tr) for tr, _ in spl) < wl:
+                continue
+        yield d
+
+
+def _shrink(case):
     c = dict(case)
     sp = dict(c["splitter"])
     n = len(c["y"])
@@ -668,6 +758,13 @@ def shrink(case):
         d = dict(c)
         d["return_data"] = False
         yield d
+    if c.get("prior", "fresh") != "fresh":
+        d = {k: v for k, v in c.items() if not k.startswith("prior")}
+        yield d
+        if c["prior"] != "full":
+            d = {k: v for k, v in c.items() if not k.startswith("prior")}
+            d["prior"] = "full"
+            yield d
     if c.get("fit_params"):
         d = dict(c)
         d["fit_params"] = None
@@ -810,6 +907,7 @@ def distribution(cases, results):
             d["X=%s" % (c.get("X") is not None)] += 1
             d["return_data=%s" % c["return_data"]] += 1
             d["index-stride=%s" % c.get("stride", 1)] += 1
+            d["forecaster-object=%s" % (o.get("prior") or c.get("prior", "fresh"))] += 1
             fp = c.get("fit_params")
             d["fit_params=%s" % ("None" if fp is None else "{}" if not fp else "keyword")] += 1
     return dict(d)
